@@ -1,0 +1,21 @@
+//go:build verif
+
+// Contracts for the govc verifier (comment-only file; compiled only with -tags verif, and then to nothing).
+
+package nitro
+
+//@ func CompareSnapshot
+//@ props C02
+//@ requires this != nil && that != nil
+//@ ensures[def] result == cast(*Snapshot, this).sn - cast(*Snapshot, that).sn
+//@ modifies none
+//@ nopanic
+
+//@ func (*Snapshot).Open
+//@ props C08
+//@ requires s != nil && s.refCount < 2147483647
+//@ ensures[iff] result <==> old(s.refCount) != 0
+//@ ensures[inc] result ==> s.refCount == old(s.refCount) + 1
+//@ ensures[zero] !result ==> s.refCount == old(s.refCount)
+//@ modifies s.refCount
+//@ loop 1 invariant s.refCount == old(s.refCount)
